@@ -103,6 +103,41 @@ def check_resample(name, spec, case, viol):
                      'observed': [list(map(float, g[:5])) for g in got], 'expected': 'positions x %s' % (sc,)})
 
 
+def check_crop_and_pad_keep(case, viol):
+    """CropAndPad(keep_size=True): crop / pad by per-side amounts (one axis only included), then resize back:
+    the keypoint is the shifted point zoomed by the per-axis factor; its scale is multiplied by the largest factor"""
+    A = R.A
+    shape = tuple(case['shape'])
+    H, W, D = shape
+    img = R.labelled(shape, 'int32')
+    kps = [tuple(k) for k in case['keypoints']]
+    pipe = A.ReplayCompose([A.CropAndPad(px=tuple(case['px']), keep_size=True, interpolation=0, p=1.0)],
+                           keypoint_params=A.KeypointParams('xyzas', angle_in_degrees=False, remove_invisible=False))
+    random.seed(case['seed'])
+    try:
+        res = pipe(image=img, keypoints=kps)
+    except Exception as e:  # noqa
+        viol.append({'site': 'C03:CropAndPad-keep_size:raises', 'kind': 'croppad', 'case': case,
+                     'observed': '%s: %s' % (type(e).__name__, e), 'expected': 'no exception'})
+        return
+    p = res['replay']['transforms'][0]['params']
+    cp, pp = p.get('crop_params'), p.get('pad_params')
+    rr, rc, rs = p['result_rows'], p['result_cols'], p['result_slices']
+    sx, sy, sz = W / rc, H / rr, D / rs
+    for k, g in zip(kps, res['keypoints']):
+        x, y, z = k[0], k[1], k[2]
+        if cp:
+            x, y, z = x - cp[0], y - cp[1], z - cp[2]
+        if pp:
+            x, y, z = x + pp[2], y + pp[0], z + pp[4]
+        exp = (x * sx, y * sy, z * sz, k[3], k[4] * max(sx, sy, sz))
+        if not (R.seq_close(g[:3], exp[:3], 1e-7) and R.close(float(g[4]), exp[4], 1e-9) and R.ang_close_rad(float(g[3]), exp[3], 1e-9)):
+            viol.append({'site': 'C03:CropAndPad-keep_size', 'kind': 'croppad', 'case': case,
+                         'observed': [float(v) for v in g[:5]], 'expected': [float(v) for v in exp],
+                         'note': 'window %s pads %s zoom (x, y, z) = (%.4f, %.4f, %.4f)' % (cp, pp, sx, sy, sz)})
+            return
+
+
 def gen_case(rng):
     shape = S.random_shape(rng)
     return {'shape': list(shape), 'keypoints': S.random_kps(rng, shape), 'seed': rng.randint(0, 10 ** 6)}
@@ -133,13 +168,30 @@ def run(seed=0, tier='quick', hints=None, broken=False):
             check_resample(c['cls'], c, case, viol)
             evals += 1
             seen.add((c['cls'], shape))
+    for _ in range(n * 3):
+        case = gen_case(rng)
+        sides = [0] * 6
+        axes = rng.choice([[0], [1], [2], [2], [0, 1], [0, 2], [1, 2], [0, 1, 2]])     # one axis only included
+        for a in axes:
+            sides[2 * a] = rng.choice([-2, -1, 0, 1, 3])
+            sides[2 * a + 1] = rng.choice([-1, 0, 2])
+        if all(v == 0 for v in sides):
+            sides[4] = 2
+        case['px'] = sides           # (top, bottom, left, right, close, far)
+        case['shape'] = [max(6, v) for v in case['shape']]
+        case['keypoints'] = S.random_kps(rng, tuple(case['shape']))
+        check_crop_and_pad_keep(case, viol)
+        evals += 1
+        seen.add(('CropAndPad-keep', tuple(axes)))
     return {'violations': viol, 'info': {'evaluations': evals, 'distinct': len(seen),
                                          'what': 'keypoint path vs voxel path (lattice map derived from labelled volume)'}}
 
 
 def replay(v):
     viol = []
-    if v.get('kind') == 'resample':
+    if v.get('kind') == 'croppad':
+        check_crop_and_pad_keep(v['case'], viol)
+    elif v.get('kind') == 'resample':
         check_resample(v['name'], v['pipeline'][0], v['case'], viol)
     else:
         check_lattice(v['name'], v['pipeline'], v['case'], viol)
